@@ -978,6 +978,17 @@ func (r *Runner) CheckUpload(u *MUpload) []Disc {
 	return nil
 }
 
+// FormPost sends a browser form upload of key into bucket.
+func (r *Runner) FormPost(bucket, key string, body []byte) *s3x.Resp {
+	var buf bytes.Buffer
+	mw := multipart.NewWriter(&buf)
+	mw.WriteField("key", key)
+	fw, _ := mw.CreateFormFile("file", "upload.bin")
+	fw.Write(body)
+	mw.Close()
+	return r.do(r.req("POST", bucket, "", nil, s3x.H("Content-Type", mw.FormDataContentType()), buf.Bytes()))
+}
+
 // ---- direct Backend API driver (the MUSTs of backend.go) -----------------------------
 
 // APIStep executes op through the Go Backend interface where backend.go
